@@ -97,6 +97,12 @@ class Session:
             if type(res.ret_status) is int and res.ret_status >> 63: res.ret_status -= 1 << 64
             res.dout = [it.load(po + 8 * k, 8, K_DOUBLE) for k in range(n_d)]
             res.iout = [it.load(pio + 8 * k, 8, K_INT) for k in range(n_i)]
+            if pathctl is not None and getattr(pathctl, 'known', None):
+                kn = pathctl.known
+                res.iout = [kn.get(v.id, v) if type(v) is Node else v for v in res.iout]
+                # a width change of a concretised value is that value
+                res.iout = [kn.get(v.args[0].id, v) if (type(v) is Node and v.op == 'irew' and type(v.args[0]) is Node) else v for v in res.iout]
+            res.iout = [v.args[0] if (type(v) is Node and v.op == 'iconst') else v for v in res.iout]
             res.iout = [(v - (1 << 64) if type(v) is int and v >> 63 else v) for v in res.iout]
         except Exception as e:   # outputs unreadable after a failure: keep what we have
             if res.status == 'ok':
